@@ -137,7 +137,7 @@ def model_task(t):
     elif kind == "logon":
         code = "[3,8,0],[5,2],[0,%s],[3,17,0],[4]" % sx_msg(LOGON)
     elif kind == "resend":
-        code = "[3,10,1],[6,%d,%d,[%s]]" % (t[2], t[3], ",".join(str(d) for d in t[4]))
+        code = "[3,10,1],[6,%d,%d,[%s]],[9]" % (t[2], t[3], ",".join(str(d) for d in t[4]))
     else:
         raise ValueError(t)
     return "[1,[%s]]" % code
@@ -646,6 +646,9 @@ def witnesses():
         ("C14_heartbeat_inflight_example", hb, [1, 0, 0, 0, 1, 0, 0, 0, 0, 0],
          lambda o: [f[:3] for f in o[0]] == [[1, 68, 0], [2, 68, 0], [3, 49, 0], [1, 68, 1], [2, 68, 1], [3, 52, 0]]
          and o[0][-1][3:] == [4, 1] and o[1][0][1] == [] and o[3] == 3 and o[4] == 4 and o[5] == 17 and o[8] == 1),
+        ("C14_resend_unservable_example", scn("example unservable request", [["in", "resend", 7, 0, []], ["send", [D(9)]]], pre=[D(1), D(2)]),
+         [0, 0, 1, 0, 1],
+         lambda o: o[1][0][1] == [3] and seqs(o) == [(1, 0, 1), (2, 0, 2), (3, 0, 9)] and o[5] == 17 and o[3] == 3 and o[4] == 4),
         ("C14_lifo_counter_refuted", lifo, [0, 1, 1, 0],
          lambda o: [f[0] for f in o[0]] == [1, 2] and o[3] == 1 and o[4] == 3 and o[8] == 0),
     ]
